@@ -69,33 +69,30 @@ Definition slice_rows (pos i r1 r2 : nat) (Z : list zipped) : list lrow :=
         if idx.size == 0: continue
         sol = _lstsq(A, b, lamb, w[idx]);  Q[:, k, :] = sol.reshape(Q[:, k, :].shape)
     every iteration writes its own slice and reads only the shape of Q, so the loop is the comprehension below *)
-Definition opt_core (lamb : T) (Q : core T) (pos : nat) (Z : list zipped) : core T :=
-  let r1 := cr1 Q in let n := cn Q in let r2 := cr2 Q in
-  let sols := tab n (fun i =>
-    match slice_rows pos i r1 r2 Z with
-    | [] => None
-    | rows => Some (lstsq (r1 * r2) lamb rows)
-    end) in
-  mkcore r1 n r2 (fun a i b =>
+Definition slice_sol (lamb : T) (pos r1 r2 : nat) (Z : list zipped) (i : nat) : option (list T) :=
+  match slice_rows pos i r1 r2 Z with
+  | [] => None
+  | row :: rows => Some (lstsq (r1 * r2) lamb (row :: rows))
+  end.
+Definition put_slices (Q : core T) (sols : list (option (list T))) : core T :=
+  mkcore (cr1 Q) (cn Q) (cr2 Q) (fun a i b =>
     match nth i sols None with
     | None => cget K Q a i b
-    | Some x => nth (a * r2 + b) x 0
+    | Some x => nth (a * cr2 Q + b) x 0
     end).
+Definition opt_core (lamb : T) (Q : core T) (pos : nat) (Z : list zipped) : core T :=
+  put_slices Q (tab (cn Q) (slice_sol lamb pos (cr1 Q) (cr2 Q) Z)).
 
 (* the pinned tree tested `if not idx.any()`: the VALUES of the positions, i.e. skip iff every selected
    position is 0 (no sample, or exactly the sample at position 0) *)
 Definition positions (pos i : nat) (S : list sample) : list nat :=
   filter (fun j => Nat.eqb (nth pos (sidx (nth j S (Smp [] 0 0))) O) i) (seq 0 (length S)).
+Definition slice_sol_pinned (lamb : T) (pos r1 r2 : nat) (S : list sample) (Z : list zipped) (i : nat)
+  : option (list T) :=
+  if forallb (fun j => Nat.eqb j O) (positions pos i S) then None
+  else Some (lstsq (r1 * r2) lamb (slice_rows pos i r1 r2 Z)).
 Definition opt_core_pinned (lamb : T) (Q : core T) (pos : nat) (S : list sample) (Z : list zipped) : core T :=
-  let r1 := cr1 Q in let n := cn Q in let r2 := cr2 Q in
-  let sols := tab n (fun i =>
-    if forallb (fun j => Nat.eqb j O) (positions pos i S) then None
-    else Some (lstsq (r1 * r2) lamb (slice_rows pos i r1 r2 Z))) in
-  mkcore r1 n r2 (fun a i b =>
-    match nth i sols None with
-    | None => cget K Q a i b
-    | Some x => nth (a * r2 + b) x 0
-    end).
+  put_slices Q (tab (cn Q) (slice_sol_pinned lamb pos (cr1 Q) (cr2 Q) S Z)).
 
 (* ------------------------------------------------------------------ interface updates
      contract('jk,kjl->jl', Yl[k], Y[k][:, i, :], out=Yl[k+1])   : row j of Yl[k+1] = Yl[k][j,:] @ G[:, i_j, :]
